@@ -2,8 +2,8 @@
    these definitions of /repo; tools/srcfacts.py regenerates their normal-form digests on every run (coq/Gen/Src_*.v).
    Statements only. *)
 From Coq Require Import List String.
-From ME Require Import Model.SrcExpected Gen.Src_common Gen.Src_map Gen.Src_flat_map Gen.Src_fbool Gen.Src_fzip Gen.Src_fbase Gen.Src_poll Gen.Src_throttle Gen.Src_retry
-  Proofs.Src_ok_common Proofs.Src_ok_map Proofs.Src_ok_flat_map Proofs.Src_ok_fbool Proofs.Src_ok_fzip Proofs.Src_ok_fbase Proofs.Src_ok_poll Proofs.Src_ok_throttle Proofs.Src_ok_retry.
+From ME Require Import Model.SrcExpected Gen.Src_common Gen.Src_map Gen.Src_flat_map Gen.Src_fbool Gen.Src_fzip Gen.Src_fbase Gen.Src_poll Gen.Src_throttle Gen.Src_retry Gen.Src_fmap Gen.Src_fcheck
+  Proofs.Src_ok_common Proofs.Src_ok_map Proofs.Src_ok_flat_map Proofs.Src_ok_fbool Proofs.Src_ok_fzip Proofs.Src_ok_fbase Proofs.Src_ok_poll Proofs.Src_ok_throttle Proofs.Src_ok_retry Proofs.Src_ok_fmap Proofs.Src_ok_fcheck.
 
 (* more_executors/_impl/common.py *)
 Theorem c02_source_common : Src_common.facts = expected_common.
@@ -32,6 +32,12 @@ Proof. exact src_throttle_ok. Qed.
 (* more_executors/_impl/retry.py *)
 Theorem c02_source_retry : Src_retry.facts = expected_retry.
 Proof. exact src_retry_ok. Qed.
+(* more_executors/_impl/futures/map.py *)
+Theorem c02_source_fmap : Src_fmap.facts = expected_fmap.
+Proof. exact src_fmap_ok. Qed.
+(* more_executors/_impl/futures/check.py *)
+Theorem c02_source_fcheck : Src_fcheck.facts = expected_fcheck.
+Proof. exact src_fcheck_ok. Qed.
 
 Print Assumptions c02_source_common.
 Print Assumptions c02_source_map.
@@ -42,3 +48,5 @@ Print Assumptions c02_source_fbase.
 Print Assumptions c02_source_poll.
 Print Assumptions c02_source_throttle.
 Print Assumptions c02_source_retry.
+Print Assumptions c02_source_fmap.
+Print Assumptions c02_source_fcheck.
